@@ -243,6 +243,9 @@ def workload(res):
                 items.append(("ops:" + tag, new, "exec"))
     for tag, text in tw.generated_expressions(seed, 4000 if thorough else 2000):
         items.append((tag, text, "eval"))
+    from .. import numlits
+    for i, prog in enumerate(numlits.as_programs(numlits.boundary_literals(rng, thorough))):
+        items.append(("numlits:%d" % i, prog, "exec"))
     for lv in (1, 10, 100, 200):
         items.append(("deep-indent:%d" % lv, deep_indent(lv), "exec"))
         items.append(("deep-indent-tabs:%d" % lv, deep_indent(lv, "\t"), "single"))
